@@ -95,7 +95,16 @@ func scanEncoder(c *core.Ctx) []ob {
 									gkey := fmt.Sprintf("ENCGUARD:%s#%s", fkey, exprString(cc.List[0]))
 									guarded := false
 									if len(cc.Body) > 0 {
-										if is, ok := cc.Body[0].(*ast.IfStmt); ok && strings.Contains(exprString(is.Cond), "len(values) >") {
+										// `if len(values) > N`, also with the length kept in the init (`if n = len(values); n > N`)
+										initLen := func(is *ast.IfStmt) bool {
+											as, ok := is.Init.(*ast.AssignStmt)
+											if !ok || len(as.Lhs) != 1 || len(as.Rhs) != 1 || exprString(as.Rhs[0]) != "len(values)" {
+												return false
+											}
+											be, ok := unparen(is.Cond).(*ast.BinaryExpr)
+											return ok && be.Op == token.GTR && exprString(be.X) == exprString(as.Lhs[0])
+										}
+										if is, ok := cc.Body[0].(*ast.IfStmt); ok && (strings.Contains(exprString(is.Cond), "len(values) >") || strings.Contains(expandLocals(fd, is.Cond, is.Cond, 0), "len(values) >") || initLen(is)) {
 											for _, s2 := range is.Body.List {
 												if _, ok := s2.(*ast.ReturnStmt); ok {
 													guarded = true
@@ -164,6 +173,42 @@ func scanEncoder(c *core.Ctx) []ob {
 					if lenVar == nil {
 						out = append(out, violOb("ENCFILL", key, c.Rel(ts.Pos()), fmt.Sprintf("%s: the arms of the operand type switch no longer record the number of values written, and no zero-fill loop shared by all arms follows the switch: at least one operand type leaves the slots beyond len(values) with whatever the encoder's buffer held before", fkey)))
 						continue
+					}
+					// a view of the tail (`tail := buf[valLen:N]`) that is then zeroed, or clear(buf[valLen:..])
+					tailViews := map[types.Object]bool{}
+					for _, after := range blk.List[si+1:] {
+						switch a := after.(type) {
+						case *ast.AssignStmt:
+							if len(a.Lhs) == 1 && len(a.Rhs) == 1 {
+								if se, ok := unparen(a.Rhs[0]).(*ast.SliceExpr); ok && se.Low != nil && identObj(info, se.Low) == lenVar {
+									if o := identObj(info, a.Lhs[0]); o != nil {
+										tailViews[o] = true
+									}
+								}
+							}
+						case *ast.ExprStmt:
+							if call, ok := a.X.(*ast.CallExpr); ok && isBuiltinCall(info, call, "clear") && len(call.Args) == 1 {
+								if se, ok := unparen(call.Args[0]).(*ast.SliceExpr); ok && se.Low != nil && identObj(info, se.Low) == lenVar {
+									found = true
+								}
+								if tailViews[identObj(info, call.Args[0])] {
+									found = true
+								}
+							}
+						case *ast.RangeStmt:
+							if tailViews[identObj(info, a.X)] {
+								ast.Inspect(a.Body, func(x ast.Node) bool {
+									if as, ok := x.(*ast.AssignStmt); ok && len(as.Rhs) == 1 && len(as.Lhs) == 1 {
+										if lit, ok := unparen(as.Rhs[0]).(*ast.BasicLit); ok && lit.Kind == token.INT && lit.Value == "0" {
+											if ix, ok := unparen(as.Lhs[0]).(*ast.IndexExpr); ok && tailViews[identObj(info, ix.X)] {
+												found = true
+											}
+										}
+									}
+									return true
+								})
+							}
+						}
 					}
 					for _, after := range blk.List[si+1:] {
 						fs, ok := after.(*ast.ForStmt)
